@@ -26,6 +26,13 @@ class Tup:
         self.items = list(items)
 
 
+class Opt:
+    """Option whose payload is a rich value (a reference into a container, a tuple): `iter.next()`, `slice.get_mut(i)`"""
+
+    def __init__(self, cond, payload):
+        self.cond, self.payload = cond, payload
+
+
 class Seq:
     """abstract finite sequence: length term n, element function of the index term"""
 
@@ -71,6 +78,8 @@ def keyrepr(key):
         r = root[1]
     elif isinstance(root, tuple) and root[0] == 'var':
         r = root[2]
+    elif isinstance(root, tuple) and root[0] == 'cursor':
+        r = keyrepr((root[1], ())) + '#pos'
     else:
         r = str(root)
     for p in path:
@@ -135,6 +144,8 @@ class VF:
             return T.sym(root[1])
         if isinstance(root, tuple) and root[0] == 'var':
             return T.sym('uninit:' + str(root[2]))
+        if isinstance(root, tuple) and root[0] == 'cursor':
+            return T.ZERO           # position of an iterator value that has not been advanced by hand yet
         return T.sym('init:' + str(root))
 
     def project(self, v, elem):
@@ -273,6 +284,8 @@ class VF:
             return T.app('closure', T.sym(v.did))
         if isinstance(v, Seq):
             return self.comp_term(v)
+        if isinstance(v, Opt):
+            return T.app('opt', v.cond, self.to_term(v.payload))
         if v is None:
             return T.UNIT
         raise TypeError(v)
@@ -441,6 +454,8 @@ class VF:
             for sp in pat['subs']:
                 if pat['variant'] in ('Some', 'Ok'):
                     pv = val
+                    if isinstance(pv, Opt):
+                        pv = pv.payload
                     if isinstance(pv, T.Tm) and T.is_app(pv, 'opt'):
                         pv = pv[2][1]       # payload of a modelled option (v.get(i) -> v[i], a.checked_sub(b) -> a - b)
                 else:
@@ -1086,20 +1101,25 @@ class VF:
             outer_written |= written
         s1 = self.store
         changed = set()
+        def var_of(k):
+            # the position of a hand-advanced iterator lives and dies with the variable that holds the iterator
+            return (k[0][1], k[1]) if k[0][0] == 'cursor' else k
         for k in set(s1) | set(s0):
             if k[0][0] == 'tmp':
                 continue
-            if k[0][0] == 'var' and k[0][1] != self.frame and k not in s0:
+            kv = var_of(k)
+            if kv[0][0] == 'var' and kv[0][1] != self.frame and k not in s0:
                 continue
             a, b = s0.get(k, None), s1.get(k, None)
             if k in s0 and (a is not b) and not (isinstance(a, Ref) and isinstance(b, Ref) and a == b):
                 changed.add(k)
-            elif k not in s0 and not (k[0][0] == 'var' and self.is_loop_local(k, s0)):
+            elif k not in s0 and not (kv[0][0] == 'var' and self.is_loop_local(kv, s0)):
                 changed.add(k)
         for k in written:
             if k[0][0] == 'tmp':
                 continue
-            if k in s0 or k[0][0] != 'var' or not self.is_loop_local(k, s0):
+            kv = var_of(k)
+            if k in s0 or kv[0][0] != 'var' or not self.is_loop_local(kv, s0):
                 changed.add(k)
         # discard pass-1 side results
         del self.events[ev0:]
@@ -1123,6 +1143,12 @@ class VF:
                 inits[k] = None
         for k in sorted(changed, key=repr):
             cur = inits[k]
+            if isinstance(cur, Ref) and not cur.mut and k[0][0] == 'var' and isinstance(s1.get(k), T.Tm):
+                # a shared-reference variable that the body re-points at a computed value (`rest = &rest[k..]`): carried by value
+                try:
+                    cur = self.to_term(self.read(cur.place))
+                except Exception:
+                    pass
             ls.init[k] = cur
             if isinstance(cur, (Ref, Clos)):
                 continue
@@ -1303,6 +1329,8 @@ class VF:
 
         res = self.run_loop_body(ls, one)
         ls.result = res
+        if not self.disc_mode:
+            self.induction_subst(ls)
         if kind == 'for' and not self.disc_mode and getattr(ls, 'result_term', None) is None:
             # `for x in xs { v.push(f(x)) }` into an empty Vec builds the same collection as xs.map(f).collect(): record the
             # element so that rules about per-element construction see one shape
@@ -1312,6 +1340,63 @@ class VF:
                 ls.collect_key = accs[0]
         self.close_accumulators(ls)
         return T.UNIT
+
+    def induction_subst(self, ls):
+        """secondary induction variables of a counted loop: a carried integer place stepped by a constant in every iteration
+        (`pos += 1`, a hand-advanced iterator's position) has the value init + step * k at iteration k; every other summary term
+        is rewritten accordingly, so `rows.next()` / `out[pos]` with a running `pos` and `out[k]` have one form"""
+        if ls.var is None or ls.n is None or any(e[0] in ('break', 'continue') for e in ls.exits):
+            return
+        lhs = set(ls.lh.values())
+        m = {}
+        for k, lh in ls.lh.items():
+            nx, c0 = ls.next.get(k), ls.init.get(k)
+            if not (isinstance(nx, T.Tm) and isinstance(c0, T.Tm)):
+                continue
+            if any(x in lhs for x in T.subterms(c0)):
+                continue
+            if T.is_app(nx, 'index') and nx[2][0] is lh and T.is_app(nx[2][1], 'range') and nx[2][1][2][1] is seq_len(lh):
+                # a shrinking slice `rest = &rest[c..]` with an invariant c: at iteration k it is init[c*k..]
+                c = nx[2][1][2][0]
+                if not any(x in lhs or x is ls.var for x in T.subterms(c)):
+                    m[lh] = T.app('index', c0, T.app('range', T.mul(c, ls.var), seq_len(c0)))
+                continue
+            step = T.sub(nx, lh)
+            if any(x in lhs or x is ls.var for x in T.subterms(step)) or step is T.ZERO:
+                continue
+            if k[0][0] == 'cursor':
+                pass                # position of a hand-advanced iterator: an integer stepped by an invariant amount
+            elif not (T.is_num(step) and T.numval(step) == int(T.numval(step)) and T.is_num(c0)):
+                continue            # (other counters: literal start and step only; floats accumulate differently)
+            m[lh] = T.add(c0, T.mul(step, ls.var))
+        if not m:
+            return
+        ls.induction = {k for k, lh in ls.lh.items() if lh in m}       # closed counters: bookkeeping of the loop form, not state
+        keep = {lh for lh in m}
+        for k in list(ls.next):
+            if isinstance(ls.next[k], T.Tm) and ls.lh.get(k) not in keep:
+                ls.next[k] = T.subst(ls.next[k], m)
+        if isinstance(getattr(ls, 'result_term', None), T.Tm):
+            ls.result_term = T.subst(ls.result_term, m)
+        for e in ls.events:
+            e.args = [T.subst(a, m) if isinstance(a, T.Tm) else a for a in e.args]
+            e.pc = tuple(T.subst(c, m) for c in e.pc)
+            if isinstance(getattr(e, 'res', None), T.Tm):
+                e.res = T.subst(e.res, m)
+        ls.exits = [(kd, lb, T.subst(c, m) if isinstance(c, T.Tm) else c) for kd, lb, c in ls.exits]
+        sub = lambda t: T.subst(t, m) if isinstance(t, T.Tm) else t
+        self.discipline[:] = [(d[0], sub(d[1])) + tuple(d[2:]) for d in self.discipline]      # (result-discipline facts name the same call terms)
+        for inner in self.loops:            # loops nested in this one were summarised over this loop's head symbols
+            if ls.uid not in inner.ctx:
+                continue
+            for dct in (inner.init, inner.next, inner.lx):
+                for k2 in list(dct):
+                    dct[k2] = sub(dct[k2])
+            inner.n = sub(inner.n)
+            if isinstance(getattr(inner, 'result_term', None), T.Tm):
+                inner.result_term = sub(inner.result_term)
+            inner.exits = [(kd, lb, sub(c)) for kd, lb, c in inner.exits]
+            inner.pc = tuple(sub(c) for c in getattr(inner, 'pc', ()))
 
     def close_accumulators(self, ls, only=None):
         """A carried place with next = lh + g(k) (g free of loop-head symbols) has the exit value
@@ -1364,13 +1449,26 @@ class VF:
         if free(d) and nxt[0] in ('poly', 'num', 'app', 'sym', 'ite'):
             if T.is_app(nxt) and not nxt[0] == 'poly':
                 return None
+            is_cursor = any(v is lh and isinstance(k_, tuple) and isinstance(k_[0], tuple) and k_[0][0] == 'cursor' for k_, v in getattr(ls, 'lh', {}).items() if k_ is not None)
+            if not any(x is ls.var for x in T.subterms(d)) and (T.is_num(d) or is_cursor):
+                return T.add(init, T.mul(ls.n, d))         # a constant step: init + n * step (integers: an iterator position, a literal step)
             return T.add(init, T.app('sum', mk_comp(ls.n, ls.var, d)))
-        if T.is_app(nxt, 'upd') and nxt[2][0] is lh and nxt[2][1] is ls.var and ls.n is T.app('len', init):
+        if T.is_app(nxt, 'upd') and nxt[2][0] is lh and nxt[2][1] is ls.var and ls.n is not seq_len(init) and T.is_app(ls.n, 'min') and seq_len(init) in ls.n[2]:
+            # the same over a PREFIX of the container (`for (slot, x) in buf.iter_mut().zip(xs) { *slot = f(x) }` with a shorter xs):
+            # the first n elements are mapped, the rest keep their initial value
+            v2 = T.subst(nxt[2][2], {index_term(lh, ls.var): index_term(init, ls.var)})
+            if free(v2):
+                return mk_comp(seq_len(init), ls.var, T.ite(T.cmp('lt', ls.var, ls.n), v2, index_term(init, ls.var)))
+        if T.is_app(nxt, 'upd') and nxt[2][0] is lh and nxt[2][1] is ls.var and ls.n is seq_len(init):
             # in-place element-wise map over the whole container: x[k] := f(x[k], k) for k in 0..len(x); iteration k reads only
             # its own (still initial) element, so the exit value is the comprehension of f over the initial elements
             v2 = T.subst(nxt[2][2], {index_term(lh, ls.var): index_term(init, ls.var)})
             if free(v2):
                 return mk_comp(ls.n, ls.var, v2)
+        if T.is_app(nxt, 'index') and nxt[2][0] is lh and T.is_app(nxt[2][1], 'range') and nxt[2][1][2][1] is seq_len(lh) and free(nxt[2][1][2][0]) \
+                and not any(x is ls.var for x in T.subterms(nxt[2][1][2][0])):
+            # a shrinking slice `rest = &rest[c..]`: after n iterations it is init[c*n..]
+            return T.app('index', init, T.app('range', T.mul(nxt[2][1][2][0], ls.n), seq_len(init)))
         if T.is_app(nxt, 'push') and nxt[2][0] == lh and free(nxt[2][1]):
             c = mk_comp(ls.n, ls.var, nxt[2][1])
             if init == T.app('array'):
@@ -1603,6 +1701,10 @@ def index_term(base, i):
         return inst_comp(base, i)
     if T.is_app(base, 'array') and T.is_num(i) and i[2] == 1 and 0 <= i[1] < len(base[2]):
         return base[2][i[1]]
+    if T.is_app(base, 'repeat') and len(base[2]) == 2:
+        return base[2][0]               # vec![x; n][i] is x
+    if T.is_app(base, 'index') and len(base[2]) == 2 and T.is_app(base[2][1], 'range') and len(base[2][1][2]) == 2 and not T.is_app(i, 'range'):
+        return index_term(base[2][0], T.add(base[2][1][2][0], i))       # x[a..b][i] is x[a + i]
     if base[0] == 'tuple' and T.is_num(i) and i[2] == 1 and 0 <= i[1] < len(base[1]):
         return base[1][i[1]]
     return T.app('index', base, i)
